@@ -75,8 +75,8 @@ def obligations(tier, seed):
         shapes = ARGP if kind == "argparse" else SH
         for i, sid in enumerate(shapes):
             for dd in (True, False):
-                if tier != "quick" and not dd and i % 2:
-                    continue  # thorough: default text off for every second shape
+                if tier != "quick" and not dd and i % 3:
+                    continue  # thorough: default text off for every third shape
                 if tier == "quick" and ((i + (0 if dd else 1)) % 3 != 0 or (kind in ("method",) and i % 2)) and not (
                         sid in ("p1_int_d", "p1_str_s", "p1_code2") and dd):
                     continue
